@@ -789,7 +789,7 @@ def gen_ranked(rng, tags, hashable=False, nom=None):
 
 
 LEVEL_SETS = [[N(0), N(1), N(2), N(3)], [N(-1), N(0), N(1)], [S(8), S(9)], [S(6), S(7), N(1)], [N(Fraction(1, 2)), N(1), N(5)],
-              [None, N(1)], []]
+              [None, N(1)], [], [{'t': []}, {'f': [S(1), S(0)]}, N(1), Cd('party', 0)]]
 
 
 def gen_score(rng, tags, vt, hashable=False, nom=None):
@@ -854,7 +854,7 @@ def gen_score(rng, tags, vt, hashable=False, nom=None):
         elif m < 0.55:
             vote = mutate_container(rng, vote, 'f', tags, hashable)
         elif m < 0.7:
-            bad = rng.choice([S(10), None, {'t': []}, {'f': []}, Cd('party', 0)])
+            bad = rng.choice([S(10), None, {'t': []}, {'f': []}, Cd('party', 0), {'f': [S(0), S(1)]}, {'f': [S(1), S(0)]}])
             items[i] = {'t': [cands[i], bad]}
             tags.append('nonnumeric_score')
             if vt == 'enum':
